@@ -36,6 +36,9 @@ def sum2 (p : Pattern R) : R := Num.sum (p.map Num.sum)
 /-- elementwise product of two equally shaped 2-D arrays -/
 def mul2 (a b : Pattern R) : Pattern R := List.zipWith (fun ra rb => List.zipWith (· * ·) ra rb) a b
 
+/-- `c * I`: the same pattern in another intensity unit -/
+def scale2 (c : R) (I : Pattern R) : Pattern R := I.map (fun row => row.map (fun v => c * v))
+
 /-- first output of `meshgrid(arange(h), arange(w), indexing="ij")`: entry `[r][c] = r` -/
 def rowGrid (h w : Nat) : Pattern R := (List.range h).map (fun r => List.replicate w (Num.ofNat r))
 
